@@ -49,6 +49,38 @@ fn split_id_desc(head: &[u8]) -> (&[u8], Option<&[u8]>) {
     }
 }
 
+/// The same record through two more kinds of sink: one with a real gathering `write_vectored`
+/// that stops wherever the script says (socket / pipe like), and a small `BufWriter` in front of the
+/// scripted sink. Returns the bytes each of them received (or the failure).
+fn other_sinks(script: &[u32], st: &mut Stats, write: &dyn Fn(&mut dyn std::io::Write) -> std::io::Result<()>) -> Vec<(&'static str, Result<Vec<u8>, String>)> {
+    use std::io::Write;
+    let mut res = vec![];
+    let mut g = SimSink::gathering(script, None);
+    let r = vcore::catch(|| write(&mut g));
+    sink_stats(&g, st);
+    st.count("step.sink_vectored_calls", g.vectored_calls as u64);
+    if g.vectored_mid_slice > 0 {
+        st.probe("probe.vectored_write_stopped_inside_a_slice");
+    }
+    res.push(("a sink with a gathering write_vectored and short writes", match r {
+        Ok(Ok(())) => Ok(std::mem::take(&mut g.out)),
+        other => Err(format!("{:?}", other)),
+    }));
+    let cap = 1 + (script.iter().map(|x| *x as usize).sum::<usize>() % 24);
+    let mut inner = SimSink::new(script, None);
+    let r = vcore::catch(|| {
+        let mut bw = std::io::BufWriter::with_capacity(cap, &mut inner);
+        write(&mut bw)?;
+        bw.flush()
+    });
+    sink_stats(&inner, st);
+    res.push(("a small BufWriter over a sink with short writes", match r {
+        Ok(Ok(())) => Ok(std::mem::take(&mut inner.out)),
+        other => Err(format!("{:?}", other)),
+    }));
+    res
+}
+
 fn sink_stats(s: &SimSink, st: &mut Stats) {
     st.count("fault.sink_short_write", s.short_writes as u64);
     st.count("fault.sink_interrupted", s.interrupts as u64);
@@ -107,7 +139,7 @@ fn entry_chunked(e: u8) -> bool {
 }
 
 /// write one record through entry point `e` into `w`
-fn write_c10(r: &WRec, e: u8, w: &mut SimSink) -> std::io::Result<()> {
+fn write_c10<W: std::io::Write>(r: &WRec, e: u8, w: &mut W) -> std::io::Result<()> {
     use fasta::Record;
     let width = r.width.max(1);
     let (id, desc) = split_id_desc(&r.head);
@@ -169,6 +201,12 @@ fn write_c10(r: &WRec, e: u8, w: &mut SimSink) -> std::io::Result<()> {
 }
 
 fn gen_wseq(rng: &Rng, max: usize) -> Vec<u8> {
+    if rng.chance(1, 120) {
+        // lengths at and next to multiples of powers of two (fixed-size scratch buffers)
+        let p = *rng.pick(&[64usize, 256, 1024, 4096, 4096, 8192, 65536]);
+        let n = (p * rng.range(1, 2) + rng.range(0, 2)).saturating_sub(1);
+        return (0..n).map(|i| b"ACGT"[(i / 7) % 4]).collect();
+    }
     let n = match rng.below(6) {
         0 => 0,
         1 => rng.range(1, 3),
@@ -254,6 +292,13 @@ pub fn run_c10(s: &C10Scn, st: &mut Stats) -> RunResult {
         }
         if plain.out != scripted.out {
             viol("C10.sink_dependent", format!("record {} via {}: bytes differ between a sink that accepts everything ({:?}) and one with short writes / Interrupted ({:?})", i, C10_ENTRIES[e as usize], show(&plain.out), show(&scripted.out)));
+        }
+        for (what, got) in other_sinks(&s.sink_script, st, &|w: &mut dyn std::io::Write| { let mut w = w; write_c10(r, e, &mut w) }) {
+            match got {
+                Ok(b) if b == plain.out => {}
+                Ok(b) => viol("C10.sink_dependent", format!("record {} via {}: bytes differ between a sink that accepts everything ({:?}) and {} ({:?})", i, C10_ENTRIES[e as usize], show(&plain.out), what, show(&b))),
+                Err(m) => viol("C10.write_failed", format!("record {} via {} into {}: {}", i, C10_ENTRIES[e as usize], what, m)),
+            }
         }
         let out = &plain.out;
         // header line
@@ -444,7 +489,7 @@ pub struct C11Scn {
 
 pub const C11_ENTRIES: &[&str] = &["write_to", "write_parts", "OwnedRecord::write", "RefRecord::write"];
 
-fn write_c11(r: &QRec, e: u8, w: &mut SimSink) -> std::io::Result<()> {
+fn write_c11<W: std::io::Write>(r: &QRec, e: u8, w: &mut W) -> std::io::Result<()> {
     use fastq::Record;
     let (id, desc) = split_id_desc(&r.head);
     match e {
@@ -552,6 +597,13 @@ pub fn run_c11(s: &C11Scn, st: &mut Stats) -> RunResult {
             }
             if plain.out != scripted.out {
                 v.push(Violation::new("C11.sink_dependent", format!("record {} via {}: {:?} vs {:?}", i, C11_ENTRIES[e as usize], show(&plain.out), show(&scripted.out))));
+            }
+            for (what, got) in other_sinks(script, st, &|w: &mut dyn std::io::Write| { let mut w = w; write_c11(r, e, &mut w) }) {
+                match got {
+                    Ok(b) if b == plain.out => {}
+                    Ok(b) => v.push(Violation::new("C11.sink_dependent", format!("record {} via {}: a sink that accepts everything got {:?}, {} got {:?}", i, C11_ENTRIES[e as usize], show(&plain.out), what, show(&b)))),
+                    Err(m) => v.push(Violation::new("C11.write_failed", format!("record {} via {} into {}: {}", i, C11_ENTRIES[e as usize], what, m))),
+                }
             }
             all.extend_from_slice(&plain.out);
         }
@@ -755,6 +807,10 @@ pub struct C18Scn {
     /// if set: exactly one small record, at this record index (somewhere inside the window)
     #[serde(default)]
     pub small_at: Option<usize>,
+    /// with `sets`: a second reader of this capacity on its own copy of the input; the two readers
+    /// take turns filling the same record set (a pooled / reused set)
+    #[serde(default)]
+    pub second_cap: Option<usize>,
     pub warm: usize,
     pub window: usize,
 }
@@ -814,6 +870,7 @@ pub fn gen_c18(rng: &Rng, tier: Tier) -> C18Scn {
         small_every: 0,
         small_len: 0,
         small_at: None,
+        second_cap: None,
         warm: rng.range(4, 40),
         window: match tier {
             Tier::Quick => rng.range(50, 400),
@@ -824,7 +881,9 @@ pub fn gen_c18(rng: &Rng, tier: Tier) -> C18Scn {
     if rng.chance(1, 4) {
         // mixed sizes: mostly records that nearly fill the buffer, now and then a tiny one
         s.n_lines = s.n_lines.max(1);
-        s.line_len = rng.range(20, 120);
+        // (capacities of several hundred bytes now and then: fractions of the capacity such as
+        // cap/64 only become non-zero there)
+        s.line_len = if rng.chance(1, 3) { rng.range(150, 900) } else { rng.range(20, 120) };
         s.small_len = rng.range(0, 2);
         if rng.chance(1, 2) {
             s.small_every = rng.range(2, 7);
@@ -839,6 +898,17 @@ pub fn gen_c18(rng: &Rng, tier: Tier) -> C18Scn {
         s.warm = s.warm.max(4 * s.small_every + 6);
         return s;
     }
+    if fmt == Fmt::Fasta && rng.chance(1, 700) {
+        // records with thousands of (short) lines: the per-record line index is long
+        s.n_lines = *rng.pick(&[rng.range(1000, 1100), rng.range(4090, 4200), rng.range(4097, 5200)]);
+        s.line_len = rng.range(0, 2);
+        s.window = rng.range(12, 40);
+        s.warm = rng.range(4, 8);
+        s.script = if rng.chance(1, 2) { vec![] } else { vec![rng.range(300, 5000) as u32] };
+        let rl = c18_record(&s, 0).len();
+        s.cap = if rng.chance(1, 2) { 65536.max(rl + 10) } else { rl * rng.range(1, 3) + rng.range(2, rl) };
+        return s;
+    }
     // capacity >= 2 records so that growth is never needed after the first fill
     let per_buf = rng.range(2, 6);
     s.cap = (rl * per_buf + rng.range(1, rl)).max(3);
@@ -846,22 +916,35 @@ pub fn gen_c18(rng: &Rng, tier: Tier) -> C18Scn {
     if !s.sets || s.set_mode == 1 {
         s.warm = s.warm.max(2 * per_buf + 3);
     }
+    if s.sets && s.set_mode < 2 && rng.chance(1, 6) {
+        s.second_cap = Some(s.cap * rng.range(2, 12) + rng.range(0, 7));
+        s.warm = 2 * s.warm + 4;
+        s.window = s.window.min(80);
+    }
     s
 }
 
 pub fn run_c18(s: &C18Scn, st: &mut Stats) -> RunResult {
     let mut v: Vec<Violation> = vec![];
     let min_rec = (0..s.small_every.max(1)).map(|i| c18_record(s, i).len()).min().unwrap_or(1).max(1);
-    let per_call = if s.sets && s.set_mode != 1 { (s.cap / min_rec).max(1) + 1 } else { 1 };
+    let per_call = if s.sets && s.set_mode != 1 { (s.cap.max(s.second_cap.unwrap_or(0)) / min_rec).max(1) + 1 } else { 1 };
     let n_records = (s.warm.max(3 * s.set_mode) + s.window + 4) * per_call + 8;
     let mut input = Vec::with_capacity(n_records * c18_record(s, 0).len());
     for i in 0..n_records {
         input.extend_from_slice(&c18_record(s, i));
     }
-    let cfg = Cfg { cap: s.cap, policy: PolicySpec::Std, script: s.script.clone(), cuts: vec![], faults: vec![], intr_burst: None, lift: None };
+    let cfg = Cfg { cap: s.cap, policy: PolicySpec::Std, script: s.script.clone(), cuts: vec![], faults: vec![], intr_burst: None, lift: None, pause: None };
     let seam = new_seam(0);
-    let src = SimSource::new(Rc::new(input), &cfg, seam.clone());
+    let input = Rc::new(input);
+    let src = SimSource::new(input.clone(), &cfg, seam.clone());
     let pol = SimPolicy::new(PolicySpec::Std, seam.clone());
+    let mut src2 = match s.second_cap {
+        Some(c2) if s.sets && s.set_mode < 2 && c2 >= 3 => {
+            st.probe("probe.two_readers_share_one_record_set");
+            Some((SimSource::new(input.clone(), &cfg, seam.clone()), SimPolicy::new(PolicySpec::Std, seam.clone()), c2))
+        }
+        _ => None,
+    };
     let mut sum = 0usize;
     // (allocations in window, grow_to calls in window, calls measured, window restarts)
     let measured: Result<(u64, usize, usize, usize), String> = vcore::catch(|| {
@@ -870,12 +953,17 @@ pub fn run_c18(s: &C18Scn, st: &mut Stats) -> RunResult {
             Fmt::Fasta => {
                 use fasta::Record;
                 let mut rd = fasta::Reader::with_capacity(src, s.cap).set_policy(pol);
+                let mut rd2 = src2.take().map(|(src2, pol2, cap2)| fasta::Reader::with_capacity(src2, cap2).set_policy(pol2));
                 let mut set = fasta::RecordSet::default();
                 let mut max_batch = 0;
                 let mut calls = 0usize;
                 let mut step = |rd: &mut fasta::Reader<SimSource, SimPolicy>, set: &mut fasta::RecordSet, sum: &mut usize| -> usize {
                     calls += 1;
                     let use_set = s.sets && (s.set_mode < 2 || calls % s.set_mode == 0);
+                    let rd = match rd2.as_mut() {
+                        Some(r2) if use_set && calls % 2 == 0 => r2,
+                        _ => rd,
+                    };
                     if use_set {
                         if s.set_mode == 1 {
                             rd.read_record_set_exact(set, Some(1)).expect("enough input").expect("valid input");
@@ -924,12 +1012,17 @@ pub fn run_c18(s: &C18Scn, st: &mut Stats) -> RunResult {
             Fmt::Fastq => {
                 use fastq::Record;
                 let mut rd = fastq::Reader::with_capacity(src, s.cap).set_policy(pol);
+                let mut rd2 = src2.take().map(|(src2, pol2, cap2)| fastq::Reader::with_capacity(src2, cap2).set_policy(pol2));
                 let mut set = fastq::RecordSet::default();
                 let mut max_batch = 0;
                 let mut calls = 0usize;
                 let mut step = |rd: &mut fastq::Reader<SimSource, SimPolicy>, set: &mut fastq::RecordSet, sum: &mut usize| -> usize {
                     calls += 1;
                     let use_set = s.sets && (s.set_mode < 2 || calls % s.set_mode == 0);
+                    let rd = match rd2.as_mut() {
+                        Some(r2) if use_set && calls % 2 == 0 => r2,
+                        _ => rd,
+                    };
                     if use_set {
                         if s.set_mode == 1 {
                             rd.read_record_set_exact(set, Some(1)).expect("enough input").expect("valid input");
